@@ -201,7 +201,14 @@ def finish(ctx: Ctx, t0: float, evidence_dir: Optional[str] = None,
     )
   if fresh and write:
     os.makedirs(out_dir, exist_ok=True)
+  shown: dict[tuple, int] = {}
   for i, v in enumerate(fresh):
+    gk = (v.rule, v.scope, v.message[:60])
+    shown[gk] = shown.get(gk, 0) + 1
+    if shown[gk] > 3:
+      if shown[gk] == 4:
+        lines.append(f'{v.where} {v.rule} [{v.scope}] ... further rows with the same diagnosis are only counted')
+      continue
     lines.append(f'{v.where} {v.rule} [{v.scope}] {v.message}')
     lines.append(f'    construct: {v.construct}')
     if v.path:
